@@ -286,5 +286,18 @@ pub fn run(cfg: &RunCfg) -> i32 {
     if let Some(v) = v {
         check.violate("random", &v.case, v.failure);
     }
+    if cfg.tier == crate::util::Tier::Thorough && !check.has_violation() {
+        crate::fuzzrun::run_campaign(
+            &mut check,
+            cfg,
+            &crate::fuzzrun::Campaign {
+                target: "wire_roundtrip",
+                server_feature: false,
+                runs: (5_000_000.0 * cfg.scale) as u64,
+                max_len: 600,
+                rule: "coverage guided libFuzzer campaign, decode direction: arbitrary bytes (seed corpus: the golden messages of the repository's tests) that decode as a client or server message must re-encode to one line that decodes to an equal message and is a fixed point of encode; evaluations = executed inputs, distinct non-trivial = inputs that reached new coverage",
+            },
+        );
+    }
     check.finish()
 }
